@@ -39,3 +39,29 @@ PROPS["C14"] = {
         {"name": "c14.decode", "engine": "fuzz", "max_len": 4200, "quick": F(3, 150000), "thorough": F(8, 20000000, max_total_time=900)},
     ],
 }
+
+PROPS["C13"] = {
+    "binary": "c13_task",
+    "level": "exploration",
+    "technique": "model-based property testing: exhaustive small-scope enumeration of operation sequences (odometer over choice points) plus rapidcheck random sequences, against a reference model of the documented task/promise semantics; instance-balance oracle for release",
+    "level_text": ("Every operation sequence of the bounded alphabet up to the stated length is executed against the real QXmppPromise/QXmppTask for void, copyable and move-only results "
+                   "and compared with a reference model after every step (run counts, received value identity, isFinished/hasResult) and at the end (all tracked values and closures destroyed); "
+                   "longer random sequences over a larger alphabet (3 task copies, promise copies, nested finish of a second promise) are sampled. Exhaustive only within the bound."),
+    "level_note": "Trusted: the reference model in harness/c13_task.cpp (written from the documentation in QXmppTask.h); ASan/UBSan. Excluded by stated assumption: destroying the very task/promise object whose member function is executing, and the reference cycle of a task captured in its own continuation on a promise that is never finished.",
+    "rule": ("enum: all sequences of exactly `len` steps over {then(task copy, ctx, in-continuation action, self-capture), finish, destroyCtx, copy/drop task, copy/drop promise, takeResult} "
+             "with 2 task copies, 2 contexts, 4 in-continuation actions; rapid: random sequences up to 20 steps with 3 task copies, 6 actions incl. finishing a second promise from inside. "
+             "Non-trivial: history has >=1 then and a finish plus one of {context destroyed before finish, re-entrant action executed, >1 copy of task/promise}. Distinct = hash of the executed operation log."),
+    "assumptions": [
+        "finish() is called at most once per promise (asserted by the library itself)",
+        "the context passed to then() is alive at registration time",
+        "a continuation never destroys the task/promise object whose then()/finish() call is executing it",
+        "a task captured in its own continuation on a promise that is never finished is a user-made cycle and is not judged",
+    ],
+    "exhaustive_claim": True,
+    "exhaustive_scope": "c13.enum: all choice paths for sequences of `len` steps (len=4 quick, 5 thorough) x 3 result types",
+    "subs": [
+        {"name": "c13.enum", "engine": "enum", "quick": {"workers": 12, "cases": 0, "params": {"len": 4, "partition_depth": 3}, "max_seconds": 200},
+         "thorough": {"workers": 16, "cases": 0, "params": {"len": 5, "partition_depth": 3}, "max_seconds": 2400}},
+        {"name": "c13.random", "engine": "rapid", "quick": R(4, 60000), "thorough": R(8, 3000000)},
+    ],
+}
